@@ -81,8 +81,10 @@ func CompletePartiteGraph(nums ...int) *DenseGraph {
 //Path returns a copy of the path on n vertices.
 func Path(n int) *DenseGraph {
 	edges := make([]byte, (n*(n-1))/2)
+	m := 0
 	for i := 0; i < n-1; i++ {
 		edges[((i+1)*i)/2+i] = 1
+		m++
 	}
 
 	degrees := make([]int, n)
@@ -93,7 +95,7 @@ func Path(n int) *DenseGraph {
 			degrees[i] = 2
 		}
 	}
-	return &DenseGraph{NumberOfVertices: n, NumberOfEdges: n - 1, DegreeSequence: degrees, Edges: edges}
+	return &DenseGraph{NumberOfVertices: n, NumberOfEdges: m, DegreeSequence: degrees, Edges: edges}
 }
 
 //Cycle returns a copy of the cycle on n vertices.
